@@ -23,6 +23,7 @@ from p11client import Died, Hang
 import persist, tokenkey
 from persist import UNAVAILABLE, ApiError, Lib
 
+DEFAULT_PRIVATE = ('data', 'sk-', 'priv-', 'dom-')         # classes whose CKA_PRIVATE defaults to true
 CLASSES = ['data', 'cert-x509', 'cert-pgp', 'sk-aes', 'sk-des3', 'sk-des2', 'sk-generic', 'sk-hmac', 'pub-rsa', 'pub-dsa', 'pub-ec', 'pub-dh', 'pub-ed', 'priv-rsa', 'priv-dsa', 'priv-ec', 'priv-dh', 'priv-ed', 'dom-dsa', 'dom-dh']
 # objectstore.umask "is in octal" (softhsm2.conf(5)): every spelling is read by its OCTAL meaning, with or without leading zeros
 SPELLINGS = ('default', '0077', '077', '77', '0027', '27', '0007', '7', '0', '0000')
@@ -101,18 +102,24 @@ class History:
             if not isinstance(v, bytes) or a in skip or a in ('CKA_CHECK_VALUE',): continue
             if a in promised and promised[a] != v: s.part.observe('read-back differs from the template (outside C06)', {'class': cls, 'attr': a, 'path': path}); continue
             if own is not None and a not in own: continue          # inherited from a public token object: legitimately on disk in clear over there
-            if isinstance(promised.get(a, v), bytes) and (a in promised or path != 'C_CreateObject') and s.is_bytes_attr(a, v): s.note(v, cls, path, a)
+            if isinstance(promised.get(a, v), bytes) and (a in promised or not path.startswith('C_CreateObject')) and s.is_bytes_attr(a, v): s.note(v, cls, path, a)
         return o
     def is_bytes_attr(s, a, v):
         """byte-string attributes only: not booleans (1 byte), CK_ULONG values or mechanism arrays"""
         return a not in ('CKA_ALLOWED_MECHANISMS',) and a not in persist.TEMPLATE_ATTRS and (len(v) >= MINLEN or a in persist.DATE_ATTRS) and not a.startswith('0x')
     # ---- store paths
-    def op_create(s, cls=None):
-        cls = cls or s.rnd.choice(CLASSES); tag = s.newtag(); tmpl = s.gen.template(cls, True, True, tag); s.trace.append(('create', cls, tag.decode()))
+    def op_create(s, cls=None, by_default=None):
+        cls = cls or s.rnd.choice(CLASSES); tag = s.newtag(); tmpl = s.gen.template(cls, True, True, tag)
+        # "private" may also come from the class default (PKCS#11: data, secret keys, private keys and domain parameters are private unless the template says otherwise): the template then
+        # carries no CKA_PRIVATE at all; adopt() only keeps the object when the API reports it private
+        if by_default is None: by_default = s.rnd.random() < .25
+        if by_default and cls.startswith(DEFAULT_PRIVATE): tmpl = [e for e in tmpl if e[0] != 'CKA_PRIVATE']; cls_path = 'C_CreateObject(private-by-default)'
+        else: cls_path = 'C_CreateObject'
+        s.trace.append(('create', cls, tag.decode()) + (('no CKA_PRIVATE in the template',) if cls_path != 'C_CreateObject' else ()))
         # dates of private objects are byte strings like any other: random valid dates
         r = s.x().call('C_CreateObject', s=s.S, tmpl=s.T(tmpl)); s.part.count('calls_create')
         if r['rv'] != 0: s.part.count('refused_create'); s.part.observe('refused C_CreateObject (no verdict)', {'class': cls, 'rv': r['rvname']}); return
-        s.adopt(tag, cls, 'C_CreateObject', r['h'], tmpl)
+        s.adopt(tag, cls, cls_path, r['h'], tmpl)
     def common(s, tag): return [('CKA_TOKEN', True), ('CKA_PRIVATE', True), ('CKA_LABEL', tag + b'|' + s.fresh(16)), ('CKA_ID', s.fresh(s.rnd.randrange(16, 40)))]
     def op_generate_key(s, k=None):
         rnd = s.rnd; k = k or rnd.choice(('aes', 'aes', 'generic', 'des3', 'dsa-params', 'dh-params')); tag = s.newtag(); s.trace.append(('generate', k, tag.decode())); x = s.x()
@@ -325,7 +332,7 @@ class History:
         fixed = s.job.get('systematic')
         if fixed:
             # all classes x paths once
-            plan = [(s.op_create, c) for c in CLASSES] + [(s.op_generate_key, k) for k in ('aes', 'generic', 'des3', 'dsa-params', 'dh-params')] + \
+            plan = [(lambda c: s.op_create(c, by_default=False), c) for c in CLASSES] + [(lambda c: s.op_create(c, by_default=True), c) for c in CLASSES if c.startswith(DEFAULT_PRIVATE)] + [(s.op_generate_key, k) for k in ('aes', 'generic', 'des3', 'dsa-params', 'dh-params')] + \
                    [(s.op_generate_pair, k) for k in ('ec', 'ed', 'rsa', 'dh')] + [(s.op_unwrap, k) for k in ('secret', 'secret', 'ec')] + [(s.op_derive, k) for k in ('ecdh', 'aes-ecb', 'aes-cbc', 'dh')]
             for i, (f, a) in enumerate(plan):
                 f(a); s.check(s.trace[-1][0] if s.trace else '?', deep=(i % 4 == 3))
